@@ -344,12 +344,12 @@ func (p *cparser) postfix(e *CExpr) *CExpr {
 // ---------------- block structure
 
 type Clause struct {
-	Kind  string // requires ensures invariant decreases modifies
-	E     *CExpr
-	Props []string // property tags
-	Label string
-	Text  string
-	Only  string // restrict to one behaviour ("@name" prefix)
+	Kind     string // requires ensures invariant decreases modifies
+	E        *CExpr
+	Props    []string // property tags
+	Label    string
+	Text     string
+	Only     string // restrict to one behaviour ("@name" prefix)
 	Abstract bool
 }
 
@@ -387,12 +387,12 @@ type FuncSpec struct {
 
 type PureDef struct {
 	Ensures *CExpr // rec only: a property of every application, proved by induction on the definition (see VerifyRecDefs)
-	Rec    bool // recursive spec function: applications stay symbolic, each is unfolded once (fuel 1) by the generator
-	Pkg    string
-	Name   string
-	Params []CVar
-	Ret    string
-	Body   *CExpr
+	Rec     bool   // recursive spec function: applications stay symbolic, each is unfolded once (fuel 1) by the generator
+	Pkg     string
+	Name    string
+	Params  []CVar
+	Ret     string
+	Body    *CExpr
 }
 
 type LemmaSpec struct {
